@@ -18,6 +18,7 @@ Plan gen_c20(uint64_t seed, int tier)
   p.cfg["policy"] = 0;
   p.cfg["den"] = r.pick<int64_t>({8, 16, 64, 64});
   gen_backend(p, r);
+  gen_backend_mode(p, r);
   p.cfg["grace_us"] = r.pick<int64_t>({0, 1});
   p.cfg["nsinks"] = 1;
   p.cfg["nloggers"] = 1;
